@@ -16,7 +16,7 @@ ID = "C06"
 RULE = (
     "grids (incl. tetrahedron n_face=n_node, single triangle n_node=n_edge, mixed sizes) x face data {every unit impulse, identity, "
     "ones, generic, int, bool, float32} x leading dims {(), (2), (2,3), (1,2,2)} x (rule, order) in {triangular 1,4,8,10,12; gaussian 1..10} "
-    "in forward and reverse call order on one grid object; linearity on all pairs of {identity, generic, impulse0} with coefficient pairs "
+    "in forward and reverse call order on one grid object, from the fresh grid and after each of 6 prior operations that fill the default-area cache (face_areas, face_jacobian, validate, to_xarray(scrip), areas(gaussian,2)+face_areas, integrate(order=8)); linearity on all pairs of {identity, generic, impulse0} with coefficient pairs "
     "{(1,1),(1,-2),(0.5,3)}; node- and edge-dimensioned arrays of every rank must raise. non-trivial = grid with >= 2 faces of different area "
     "and non-constant data; distinct = (mesh, data, lead, rule, order)"
 )
@@ -32,6 +32,33 @@ RULES = [("triangular", o) for o in (4, 1, 8, 10, 12)] + [("gaussian", o) for o 
 QUICK = ["tetra", "single3", "mixedpatch", "pyr5", "prism", "cube", "sizes38"]
 THOROUGH = QUICK + ["icosa", "cs2", "amstrip", "polecap"]
 LEADS = [(), (2,), (2, 3), (1, 2, 2)]
+# operations performed on the grid object before the (rule, order) sequence: each one fills the default-area cache
+PRE = {
+    "face_areas": lambda g: g.face_areas,
+    "face_jacobian": lambda g: g.face_jacobian,
+    "validate": lambda g: _quiet(g.validate),
+    "to_xarray(scrip)": lambda g: _try(lambda: g.to_xarray("scrip")),
+    "areas(gaussian,2)+face_areas": lambda g: (g.compute_face_areas("gaussian", 2), g.face_areas),
+    "integrate(order=8)": lambda g: build.uxda(g, np.ones(g.n_face), "n_face").integrate("triangular", 8),
+}
+
+
+def _quiet(f):
+    import contextlib
+    import io
+
+    with contextlib.redirect_stdout(io.StringIO()):
+        try:
+            return f()
+        except Exception:
+            return None
+
+
+def _try(f):
+    try:
+        return f()
+    except Exception:
+        return None
 
 
 def cases(tier):
@@ -39,6 +66,8 @@ def cases(tier):
     for name in QUICK if tier == "quick" else THOROUGH:
         for rev in (False, True):
             out.append({"kind": "int", "mesh": name, "rev": rev, "tier": tier})
+            for pre in PRE:
+                out.append({"kind": "int", "mesh": name, "rev": rev, "tier": tier, "pre": pre})
         out.append({"kind": "lin", "mesh": name})
         out.append({"kind": "reject", "mesh": name})
     return out
@@ -76,6 +105,9 @@ def run_case(case):
     tier = case["tier"]
     rules = list(reversed(RULES)) if case["rev"] else RULES
     g = build.grid(m)  # one grid object for the whole (rule, order) sequence
+    pre = case.get("pre")
+    if pre:
+        PRE[pre](g)
     ref_area = {}
     datas = build.data_alphabet(m.n_face, ("identity", "generic", "ones", "int", "bool", "f32", "impulses"))
     for rule, order in rules:
@@ -85,6 +117,8 @@ def run_case(case):
             simple = dname in ("identity", "generic", "ones")
             for lead in LEADS:
                 if tier == "quick" and not default and not (simple and len(lead) <= 1):
+                    continue
+                if pre and not (dname in ("identity", "ones") and len(lead) <= 1):
                     continue
                 if dname.startswith("impulse") and (lead or not default) and tier == "quick":
                     continue
@@ -96,7 +130,7 @@ def run_case(case):
                 da = build.uxda(g, data, "n_face", lead, name="psi")
                 res["evaluations"] += 1
                 res["transitions"] += 1
-                key = digest((case["mesh"], dname, list(lead), rule, order))
+                key = digest((case["mesh"], dname, list(lead), rule, order, pre))
                 res["states"].append(key)
                 if m.n_face > 1 and dname != "ones":
                     res["nontrivial"].append(key)
@@ -122,13 +156,13 @@ def run_case(case):
                     continue
                 tol = (1e-5 if dname == "f32" else 1e-12) * max(1.0, float(np.max(np.abs(ref))) if ref.size else 1.0)
                 if not np.all(np.abs(v - ref) <= tol):
-                    V.append({"oracle": "value", "sig": "c06:value:%s" % ("default" if default else "nondefault"), "msg": "integrate(%s,%s) of %s%s = %r, area-weighted sum = %r" % (rule, order, dname, lead, v.tolist(), ref.tolist()), "focus": focus})
+                    V.append({"oracle": "value", "sig": "c06:value:%s" % ("default" if default else "nondefault"), "msg": "%sintegrate(%s,%s) of %s%s = %r, area-weighted sum = %r" % (("after %s: " % pre) if pre else "", rule, order, dname, lead, v.tolist(), ref.tolist()), "focus": focus})
                 if dname == "ones" and not lead:
                     tot = float(build.grid(m).calculate_total_face_area(rule, order))
                     if abs(float(v) - tot) > 1e-12 * max(1.0, tot):
                         V.append({"oracle": "ones", "sig": "c06:ones-total", "msg": "integral of 1 = %r, total area = %r" % (float(v), tot), "focus": focus})
                 res["outcomes"].append(digest(np.round(v, 9)))
-    res["axes"] = {"mesh": {case["mesh"]: res["evaluations"]}, "rule_order": {"%s%d" % r: 1 for r in rules}}
+    res["axes"] = {"mesh": {case["mesh"]: res["evaluations"]}, "rule_order": {"%s%d" % r: 1 for r in rules}, "prior_history": {str(pre): res["evaluations"]}}
     res["sample"] = {"mesh": case["mesh"], "rev": case["rev"]}
     return res
 
